@@ -6,6 +6,7 @@ import ArtapModel.Gen.Selection
 The generated functions are the hand-written `cmpND` and `select` of `Model/Selection.lean`
 (properties C03, C09), for all inputs.
 -/
+set_option linter.unusedSimpArgs false
 namespace Artap.Tie.Selection
 open Artap Artap.Gen.Selection
 
